@@ -366,43 +366,57 @@ def kTE_l : Bytes := kTransferEncoding.map lower
 def kCL_l : Bytes := kContentLength.map lower
 def kHost_l : Bytes := kHost.map lower
 
-/-- the whole byte string must be exactly one request -/
+/-- layer 1: the request line `method SP request-target SP HTTP/1.1` -/
+def reqLine (rl : Bytes) : Except Rej (Bytes × Bytes) :=
+  match splitOn 32 rl with
+  | [m, t, v] =>
+    if !isToken m then .error .badMethod
+    else if t.isEmpty || !t.all isTargetByte then .error .badTarget
+    else if v != sHTTP11 then .error .badVersion
+    else .ok (m, t)
+  | _ => .error .reqLineParts
+
+/-- layer 3: message body framing (RFC 9112 §6): Transfer-Encoding must be exactly `chunked` and excludes
+    Content-Length; all Content-Length values equal and 1*DIGIT; nothing may follow the message -/
+def framing (fs : List (Bytes × Bytes)) (rest : Bytes) : Except Rej Bytes :=
+  let tes := fs.filter fun f => eqFold f.1 kTransferEncoding
+  let cls := fs.filter fun f => eqFold f.1 kContentLength
+  if !tes.isEmpty then
+    if tes.length != 1 || !cls.isEmpty || (tes.map (·.2)) != [sChunked] then .error .badFraming
+    else
+      match dechunk (rest.length + 1) rest with
+      | none => .error .shortBody
+      | some (b, r) => if r.isEmpty then .ok b else .error .trailing
+  else
+    match cls with
+    | [] => if rest.isEmpty then .ok [] else .error .trailing
+    | c :: more =>
+      if !(more.all fun f => f.2 == c.2) then .error .badFraming
+      else match decVal c.2 with
+        | none => .error .badFraming
+        | some n =>
+          if rest.length < n then .error .shortBody
+          else if rest.length > n then .error .trailing
+          else .ok rest
+
+/-- the whole byte string must be exactly one request: head lines (strict CRLF), request line,
+    field lines (layer 2: `parseFields`), exactly one Host, framing -/
 def rfcOne (bs : Bytes) : Except Rej Parsed :=
   match headLines (bs.length + 1) bs with
   | none => .error .noHead
   | some ([], _) => .error .noHead
   | some (rl :: fls, rest) =>
-    match splitOn 32 rl with
-    | [m, t, v] =>
-      if !isToken m then .error .badMethod
-      else if t.isEmpty || !t.all isTargetByte then .error .badTarget
-      else if v != sHTTP11 then .error .badVersion
-      else
-        match parseFields fls with
-        | none => .error .badField
-        | some fs =>
-          if (fs.filter fun f => eqFold f.1 kHost).length != 1 then .error .hostCount
-          else
-            let tes := fs.filter fun f => eqFold f.1 kTransferEncoding
-            let cls := fs.filter fun f => eqFold f.1 kContentLength
-            if !tes.isEmpty then
-              if tes.length != 1 || !cls.isEmpty || (tes.map (·.2)) != [sChunked] then .error .badFraming
-              else
-                match dechunk (rest.length + 1) rest with
-                | none => .error .shortBody
-                | some (b, r) => if r.isEmpty then .ok ⟨m, t, fs, b⟩ else .error .trailing
-            else
-              match cls with
-              | [] => if rest.isEmpty then .ok ⟨m, t, fs, []⟩ else .error .trailing
-              | c :: more =>
-                if !(more.all fun f => f.2 == c.2) then .error .badFraming
-                else match decVal c.2 with
-                  | none => .error .badFraming
-                  | some n =>
-                    if rest.length < n then .error .shortBody
-                    else if rest.length > n then .error .trailing
-                    else .ok ⟨m, t, fs, rest⟩
-    | _ => .error .reqLineParts
+    match reqLine rl with
+    | .error e => .error e
+    | .ok (m, t) =>
+      match parseFields fls with
+      | none => .error .badField
+      | some fs =>
+        if (fs.filter fun f => eqFold f.1 kHost).length != 1 then .error .hostCount
+        else
+          match framing fs rest with
+          | .error e => .error e
+          | .ok b => .ok ⟨m, t, fs, b⟩
 
 /-! ## what the accepted request says the backend must see (independent of `writeRequest`) -/
 def bodyOf (r : Req) : Bytes := (r.body.getD []).flatten
@@ -431,7 +445,7 @@ def compareParsed (r : Req) (p : Parsed) : Option String :=
   if p.method != effMethod r then some "diff-method"
   else if p.target != ruri r then some "diff-target"
   else if (p.fields.filter fun f => f.1 == kHost).map (·.2) != [trimOWS (effHost r)] then some "diff-host"
-  else if sortP (p.fields.filter fun f => !isOwnField r.close f) != sortP (expFields r) then some "diff-fields"
+  else if !((p.fields.filter fun f => !isOwnField r.close f).isPerm (expFields r)) then some "diff-fields"
   else if p.body != bodyOf r then some "diff-body"
   else none
 
@@ -488,6 +502,21 @@ def wellFormed (r : Req) : Bool :=
   (effHost r).all isValueByte &&
   r.header.all (fun kv => isToken kv.1 && kv.2.all fun v => (sanitize v).all isValueByte) &&
   (match r.trailer with | some ks => ks.all isToken | none => true)
+
+/-- hypothesis of the round-trip theorem `C25_one_request_partial` (the strengthened frontend guarantee):
+    method a token; target non-empty without SP/CTL; host without CTL; header names tokens that do not
+    shadow Host / Transfer-Encoding / Content-Length under another spelling (true for canonical keys);
+    values ARBITRARY except that no control byte other than HT may remain after the CR/LF→SP rewrite;
+    what httpProtoSet and the frontends fix: HTTP/1.1, Close=false, TransferEncoding ∈ {[], [chunked]};
+    no declared trailer; body pieces non-empty -/
+def oneReqHyp (r : Req) : Bool :=
+  isToken (effMethod r) && !(ruri r).isEmpty && (ruri r).all isTargetByte &&
+  (effHost r).all isValueByte &&
+  r.header.all (fun kv => isToken kv.1 && kv.2.all fun v => (sanitize v).all isValueByte) &&
+  r.header.all (fun kv => excluded kv.1 ||
+    !(eqFold kv.1 kHost || eqFold kv.1 kTransferEncoding || eqFold kv.1 kContentLength)) &&
+  !r.close && r.trailer.isNone && r.atLeast11 && teOK r &&
+  (r.body.getD []).all (fun p => !p.isEmpty)
 
 /-- no CR / LF in any component that is written verbatim -/
 def lineSafe (r : Req) : Bool :=
